@@ -63,6 +63,8 @@ BREAKING = [
     ("send-cancelled-ack-stops-clock", SEND, "        if self.send_state == SendState::SendEof || self.send_state == SendState::Cancelled {", "        if self.send_state == SendState::SendEof {", {"C03": 1}),
     ("recv-shutdown-keeps-active", RECV, "        self.state = TransactionState::Terminated;\n        self.timer.ack.pause();\n        self.timer.nak.pause();", "        self.timer.ack.pause();\n        self.timer.nak.pause();", {"C03": 1}),
     ("send-metadata-swapped-names", SEND, "            source_filename: self.metadata.source_filename.clone(),\n            destination_filename: self.metadata.destination_filename.clone(),\n            options:", "            source_filename: self.metadata.destination_filename.clone(),\n            destination_filename: self.metadata.source_filename.clone(),\n            options:", {"C07": 1}),
+    ("send-eof-checksum-stale-cache", SEND, "                self.checksum = Some(checksum);\n                Ok(checksum)", "                self.checksum = Some(0);\n                Ok(checksum)", {"C07": 1}),
+    ("send-eof-size-from-progress", SEND, "                file_size: self.metadata.file_size,\n                fault_location,", "                file_size: self.sent_file_size,\n                fault_location,", {"C07": 1}),
     ("crc-poly-typo", PDU, "let poly = 0x1021;", "let poly = 0x1012;", {"C15": 1}),
     ("crc-over-reencoding", PDU, "                    let mut temp = received_pdu.header.clone().encode();\n                    temp.extend_from_slice(remaining_msg.as_slice());\n                    temp",
      "                    let mut temp = received_pdu.clone().encode();\n                    temp.truncate(temp.len() - 2);\n                    temp", {"C15": 1}),
